@@ -9,7 +9,8 @@ fn sj(s: &str) -> J {
 
 fn run(r: &str, acc: &[String], out: &mut Out) {
     let refs: Vec<&str> = acc.iter().map(|s| s.as_str()).collect();
-    let res = did_you_mean(r, &refs);
+    // a panic of the code under test is data, not a harness failure
+    let res = crate::util::quiet_catch(|| did_you_mean(r, &refs)).unwrap_or_else(|m| format!("<panic: {m}>"));
     out.emit(&json!({
         "e": "reset",
         "inp": {"r": sj(r), "acc": acc.iter().map(|s| sj(s)).collect::<Vec<_>>()},
